@@ -881,6 +881,30 @@ def map_drain(ctx: Ctx) -> None:
             + ("" if ok else " — it is not: when the last in-flight tasks of a batch finish together the loop ends with input batches never submitted"),
             sel="drain:refill-after-wait",
         )
+        # what gates the refill is the batch state alone: the one option a guard may read is
+        # the batch size (the parameter compared with len(pending)); a guard on any other
+        # option switches batching's second and later batches off with that option
+        tests = [(t, b) for t, _, b in cfg.branch_conditions(rn) if cfg.in_loop(b, m.main.id)]
+        batch_params = set()
+        for t, _ in tests:
+            for cmp_ in [x for x in ast.walk(t) if isinstance(x, ast.Compare)]:
+                if any(isinstance(y, ast.Call) and isinstance(y.func, ast.Name) and y.func.id == "len" and y.args and mentions_name(y.args[0], m.pending) for y in ast.walk(cmp_)):
+                    batch_params |= {y.id for y in ast.walk(cmp_) if isinstance(y, ast.Name) and y.id in d.params}
+        if batch_params:
+            foreign = []
+            for t, b in tests:
+                tt = {x.id for x in ast.walk(t) if isinstance(x, ast.Name) and x.id in d.params}
+                if tt - batch_params:
+                    foreign.append((t, sorted(tt - batch_params)))
+            ctx.ob(
+                d,
+                foreign[0][0] if foreign else n,
+                not foreign,
+                f"the batch refill is gated by the batch state only (option read: {sorted(batch_params)})"
+                + ("" if not foreign else f" — it also sits under `{unparse(foreign[0][0], 40)}`, which reads {foreign[0][1]}: with that option off only the first batch is ever submitted and the map ends as if complete"),
+                sel="drain:refill-gate",
+                firm=True,
+            )
     # pending shrinks only by the partition and by removing a delivered task's twin
     for n in d.own_nodes():
         if isinstance(n, ast.Call) and isinstance(n.func, ast.Attribute) and isinstance(n.func.value, ast.Name) and n.func.value.id == m.pending and n.func.attr in MUTATORS_SHRINK:
